@@ -258,7 +258,7 @@ pub fn exec(prot: Prot, buf: BufKind, v: &Val, api: BinApi, ext: bool) -> Result
         }
         (Prot::Unsafe, _) => {
             // size first (that is the contract), then write into a window of exactly that size
-            let window = pilota_size(Prot::Unsafe, &[v], api);
+            let window = vdrive::drive::pilota_size_zc(Prot::Unsafe, &[v], api, zc);
             let mut tr = Tracker::default();
             let enc = encode_vals(Prot::Unsafe, buf, &[v], api, &mut tr, window)?;
             st.sum = window;
